@@ -252,7 +252,7 @@ def run(ctx):
 
             def is_path(t):
                 ie = iter_elem(W, t)
-                return ie is not None and is_call(ie["container"], "chunks") and ie["container"][2][0] == ("param", rp.path, 4)
+                return ie is not None and is_call(ie["container"]) and callee_name(ie["container"][1]) in ("chunks", "chunks_exact") and ie["container"][2][0] == ("param", rp.path, 4)
 
             def is_running(t):
                 return values.contains(t, lambda s: is_call(s, "MerkleTree::hash_leaf") and s[2][1] == ("param", rp.path, 3)) or (isinstance(t, tuple) and t[0] in ("loopvar", "obj"))
